@@ -514,8 +514,8 @@ Section Model.
   Definition step (s : state) (o : op) : state :=
     match o with
     | OMsg m => fst (deliver s m)
-    | OTokenCall c caller cl => if caller =? MODULE then s else fst (token_call s c caller cl)
-    | OBankSend from to d a => if from =? MODULE then s else fst (bank_send s from to d a)
+    | OTokenCall c caller cl => fst (token_call s c caller cl)
+    | OBankSend from to d a => fst (bank_send s from to d a)
     | OToggle id =>
         match get_pair s id with
         | Some _ => set_registry s (aupd bytes_eqb (s_pairs s) id toggle_pair) (s_erc20 s) (s_denom s)
@@ -525,6 +525,18 @@ Section Model.
     end.
 
   Definition run (s : state) (l : list op) : state := fold_left step l s.
+
+  (** Nobody holds a private key of the module account: no operation of a history is signed by it (messages:
+      the signer is the sender; Ethereum transactions: the caller; bank sends: the source). *)
+  Definition signer (o : op) : option Z :=
+    match o with
+    | OMsg (MCC m) => Some (cc_sender m)
+    | OMsg (MCE m) => Some (hex_to_addr (ce_sender m))
+    | OTokenCall _ caller _ => Some caller
+    | OBankSend from _ _ _ => Some from
+    | _ => None
+    end.
+  Definition not_module_signed (o : op) : Prop := signer o <> Some MODULE.
 
 End Model.
 
